@@ -221,7 +221,8 @@ theorem JustifiedAt.done_mono {c c' : Nat} {fe : FrontEnd} {evs : List Ev} {i : 
 
 theorem validatorOutcome_form {fe : FrontEnd} {v : Verdict} {d : Nat} {o : Outcome}
     (h : validatorOutcome fe v d = some o) : o = .data d ∨ (∃ v', o = .valFail d v') ∨ o = .validatorError d := by
-  cases fe <;> cases v <;> simp [validatorOutcome] at h <;> subst h <;> simp
+  rw [validatorOutcome_eq_ref] at h
+  cases fe <;> cases v <;> simp [validatorOutcomeRef] at h <;> subst h <;> simp
 
 /-- an outcome produced by the validator is justified by the Data that was taken -/
 theorem Resolved.of_validator {fe : FrontEnd} {evs : List Ev} {i : Nat} {r : Req} {d a t0 : Nat} {o : Outcome}
@@ -387,12 +388,12 @@ theorem justified_step (fe : FrontEnd) (evs : List Ev) (ev : Ev) {i : Nat} {r : 
       exact JustifiedAt.fire (by omega) (by omega) (by omega) (hJ.snoc _)
 
 theorem expiry_ge (fe : FrontEnd) (now life defer : Nat) : now + defer ≤ expiry fe now life defer := by
-  unfold expiry; cases fe
-  · simp only; omega
-  · simp only; split <;> omega
+  cases fe
+  · rw [expiry_v1]; omega
+  · rw [expiry_v2]; split <;> omega
 
 theorem silent_iff {fe : FrontEnd} {nr : Bool} : silent fe nr = true ↔ fe = .v2 ∧ nr = true := by
-  cases fe <;> simp [silent]
+  cases fe <;> simp
 
 /-- **every state of every request is justified by the history** (no hypothesis on the history: lifetime 0,
     late awaits, `no_response` and same-turn ties included) -/
